@@ -245,6 +245,10 @@ def run(chk):
     cases += interpolation_faults()
     cases += inheritance_flows()
     cases += constructor_flows()
+    # names that escape their binder (C09's matrix, top-level placements): whatever the checker accepts of them is executed
+    import c09 as _c09
+    esc = [(label, text) for label, text, _exp in _c09.matrix() if label.startswith("escape/") and label.endswith("/top")]
+    cases += esc if thorough else [c for c in esc if "/typed-" in c[0] or "/returned/" in c[0]] + rng.sample(esc, 60)
     flows = container_flows()
     cases += flows if thorough else [c for c in flows if c[0].endswith(("/def", "/param"))] + rng.sample(flows, 150)
     progs = [gen_prog.Gen(rng).program() for _ in range(120 if thorough else 25)]
